@@ -6,8 +6,6 @@ TITLE = "Memoized functions re-run only when something they read changed"
 TRANSLATORS = []
 LEAN_MODULES = ["IsoVerif.Props.C02"]
 THEOREMS = [
-    "IsoVerif.Props.C02.C02_witness_spurious_dep",
-    "IsoVerif.Props.C02.C02_statement_false",
     "IsoVerif.Props.C02.C02_equal_write_noop",
     "IsoVerif.Props.C02.C02_equal_write_noop_singleton",
     "IsoVerif.Props.C02.C02_equal_write_no_rerun",
@@ -19,9 +17,9 @@ CASES = {"quick": 2400, "thorough": 120000}
 TECHNIQUE = _b.TECHNIQUE.replace("every call's value = from-scratch evaluation on the current sources",
                                  "the implementation's per-function run-counter deltas must lie within what an ideal memoiser (semantic direct dependencies, no stamps) executes")
 PARTIAL = [
-    "C02_statement is false of today's code: F22 (dependencies registered on the caller's frame while a callee is only verified) is an open known finding with a witness theorem; F3 was repaired (/repo b7bfe5c) and C02_equal_write_noop / _no_rerun are theorems about the repaired code for ALL programs and states",
-    "C02_unrelated_write_partial carries nesting depth 0 (Flat) and clean calls only, and speaks about pico's RECORDED dependencies of the node",
-    "backdating (a re-executed intermediate with an equal value does not re-execute its dependents) is not carried by a theorem: it is false in general (F22) and for nested programs rests on the correspondence + ideal-memoiser oracle",
+    "C02_statement (every execution is a first run, follows a collection, or has a changed DIRECT semantic dependency) is not proved in general; no history is known on which today's code violates it: F3 (/repo b7bfe5c) and F22 (/repo 340414a) were repaired, their former witness histories are kernel-checked to satisfy the statement, and the correspondence + ideal-memoiser oracle find nothing",
+    "C02_equal_write_noop / _no_rerun hold for ALL programs and states; C02_unrelated_write_partial carries nesting depth 0 (Flat) and clean calls only, and speaks about pico's RECORDED dependencies of the node",
+    "backdating (a re-executed intermediate with an equal value does not re-execute its dependents) is not carried by a theorem: for nested programs it rests on the correspondence + ideal-memoiser oracle",
 ]
 ASSUMPTIONS = _b.ASSUMPTIONS + [
     "which nodes a collection discarded is taken from the (agreeing) model: the implementation does not expose it",
@@ -43,6 +41,6 @@ def check_distribution(dist, cases):
 
 
 LEVEL_TEXT = ("Kernel-checked: C02_statement (every execution of a body is a first run, follows a collection, or has a changed DIRECT semantic dependency) "
-              "as a decidable Prop over all programs and histories; a witness theorem that it fails on today's code (F22, replayed on the real crate); "
-              "and the theorems listed in THEOREMS about the repaired set_source (F3, /repo b7bfe5c). Model = implementation on run counters, op by op.")
+              "as a decidable Prop over all programs and histories; the former witness histories of F3 and F22 kernel-checked to satisfy it on the repaired code; "
+              "and the theorems listed in THEOREMS about the repaired code (F3 /repo b7bfe5c, F22 /repo 340414a). Model = implementation on run counters, op by op.")
 LEVEL_NOTE = _b.LEVEL_NOTE
